@@ -428,6 +428,38 @@ theorem C17_history_runs_compile_together_iff_identical (lang : Lang) (cs : List
       · rw [← hiff]
         simp [hdef₁, ha₂, accepted, List.isEmpty_iff]
 
+/-- Delivery: however a request reaches a fresh builder — any number of configuration files, then any number of override
+calls — the language object is handed `validate` of `merged` (built-in, files in order, the last override). -/
+theorem C17_delivery_reaches_the_templates (lang : Lang) (file : LangConfig) (d : Delivery) :
+    (((Builder.fresh file).deliver d).create lang).2 = effectiveDelivered lang file d :=
+  deliver_create lang file d
+
+/-- The documented precedence, per option key: an explicit override (API call / CLI flag; the last call) beats every
+file, a later file beats an earlier one, and only a key no source mentions keeps its built-in default.  No source is
+dropped: an option set only in an earlier file is still in force when a later file sets other options of the section. -/
+theorem C17_delivery_precedence (file : LangConfig) (d : Delivery) (k : String) :
+    (merged file d).lookup k =
+      match lastVal (d.overrides.getLast?.getD []) k with
+      | some v => some v
+      | none =>
+        match d.files.reverse.findSome? (fun f => lastVal f k) with
+        | some v => some v
+        | none => file.options.lookup k := by
+  rw [merged, lookup_update, lookup_files]
+  cases lastVal (d.overrides.getLast?.getD []) k <;>
+    cases d.files.reverse.findSome? (fun f => lastVal f k) <;> rfl
+
+example :
+    let te := "target_endianness"
+    let d : Delivery := ⟨[[(te, .str "little")], [("enable_serialization_asserts", .bool true)]], []⟩
+    let d' : Delivery := ⟨[[(te, .str "big")], [(te, .str "little")]], [[("std", .str "c11")], []]⟩
+    (match effectiveDelivered .c (Gen.fileConfig .c) d with
+      | .ok o => (o.lookup te, o.lookup "enable_serialization_asserts") | .error _ => (none, none))
+      = (some (.str "little"), some (.bool true)) ∧
+    (match effectiveDelivered .c (Gen.fileConfig .c) d' with
+      | .ok o => (o.lookup te, o.lookup "std") | .error _ => (none, none)) = (some (.str "little"), some (.str "c11")) := by
+  decide +kernel
+
 /-- Non-vacuity and the seeded classes as closed instances.  A process that calls `generate_types` with
 `target_endianness = little` and then without options: the second run emits the encoding of `any`, and its type headers do
 not pass against the first run's support header. -/
